@@ -53,3 +53,15 @@ pub uninterp spec fn tpl_resolves(t: &Tera, n: Name) -> bool;
 pub fn vx_tpl_unresolved(t: &Tera, n: &String) -> (b: bool) ensures b == !tpl_resolves(t, n@) { unimplemented!() }
 #[verifier::external_body]
 pub fn vx_str_eq(a: &String, b: &str) -> (r: bool) ensures r == (a@ == b@) { unimplemented!() }
+#[verifier::external_body]
+pub struct Error { _p: () }
+impl Error { #[verifier::external_body] pub fn message(m: String) -> Error { unimplemented!() } }
+pub type TeraResult<T> = Result<T, Error>;
+/// what a region does next: falls through to the rest of the function, or returns from it
+pub enum VxFlow<T> { Next, Return(T) }
+#[verifier::external_body]
+pub fn vx_sort_reports(v: &mut Vec<(&str, usize, String)>) ensures final(v)@.len() == old(v)@.len() { unimplemented!() }
+#[verifier::external_body]
+pub fn vx_reports_of(v: Vec<(&str, usize, String)>) -> (r: Vec<String>) ensures r@.len() == v@.len() { unimplemented!() }
+#[verifier::external_body]
+pub fn vx_join(v: &Vec<String>, sep: &str) -> String { unimplemented!() }
